@@ -58,7 +58,7 @@ def run(shard, tier, seed):
         check(v)
 
     @hypothesis.seed(env.subseed(seed, ID, "range"))
-    @settings(max_examples=20_000 if tier == "quick" else 1_000_000, deadline=None, database=None,
+    @settings(max_examples=20_000 if tier == "quick" else 300_000, deadline=None, database=None,
               suppress_health_check=list(hypothesis.HealthCheck), phases=[hypothesis.Phase.generate])
     @given(st.one_of(st.integers(-(1 << 65), 1 << 65), st.integers(-5, 5).map(lambda d: MAX + d), st.integers(-3, 10),
                      st.integers(0, 64).flatmap(lambda b: st.integers(-2, 2).map(lambda d: (1 << b) + d))))
